@@ -414,7 +414,66 @@ def scen_reuse(g, name, typ):
     return L
 
 
-SCENARIOS = {"budget": scen_budget, "groups": scen_groups, "reuse": scen_reuse}
+def scen_deque(g, name, typ):
+    """ordered queues: out-of-order completions leave holes in the slot map and park outputs, then
+    push_front / push_back (wrapping counters, re-basing with holes), refused pushes on a full
+    queue, from_iter followed by pushes; at the end everything completes and is drained - every
+    future must come out, in deque order"""
+    r = g.r
+    if typ not in ("FOB", "FO"):
+        typ = r.choice(["FOB", "FO"])
+    cap = r.choice([3, 4, 5, 8])
+    L = ["hist " + name]
+    new = "new %s cap=%d" % (typ, cap if typ == "FOB" else r.choice([1, 2, 4]))
+    if r.random() < 0.6:
+        new += " seed=%d" % r.choice(SEEDS)
+    nid = 1
+    handles = []          # handle id of every child, in the order its first poll clones it
+    pending = []          # children (by handle) not yet completed
+    nh = 0
+    use_iter = r.random() < 0.3
+    if use_iter:
+        new += " iter=1"
+        L.append(new)
+        k = r.choice([2, 3, cap])
+        for _ in range(k):
+            L.append("init %d c:P;:R" % nid); nid += 1
+        L.append("build")
+        npush = k
+    else:
+        L += [new, "build"]
+        npush = 0
+    def push(front):
+        nonlocal nid, npush
+        op = ("try" if (typ == "FOB" and r.random() < 0.5) else "") + "push" + ("f" if front else "")
+        L.append("%s %d c:P;:R" % (op, nid)); nid += 1; npush += 1
+    for _ in range(r.choice([2, 3, cap, cap + 1])):
+        push(r.random() < 0.3)
+    L.append("poll 1")
+    nh = npush                      # an upper bound: refused pushes clone nothing
+    for rnd in range(r.choice([2, 3, 5])):
+        hs = list(range(nh)); r.shuffle(hs)
+        for h in hs[:r.choice([1, 2, 3])]:
+            L.append("env w%d" % h)
+        L.append("poll %d" % r.choice([1, 2]))
+        for _ in range(r.choice([0, 1, 2])):
+            push(r.random() < 0.5)
+        L.append("poll %d" % r.choice([1, 2]))
+        nh = npush
+        if r.random() < 0.3:
+            L.append("obs")
+    # everything completes
+    for _ in range(2):
+        for h in range(nh + 2):
+            L.append("env w%d" % h)
+        for _ in range(npush + 2):
+            L.append("poll 1")
+    L.append("obs")
+    g.stats["types"][typ] = g.stats["types"].get(typ, 0) + 1
+    return _tail(L)
+
+
+SCENARIOS = {"budget": scen_budget, "groups": scen_groups, "reuse": scen_reuse, "deque": scen_deque}
 
 
 def main():
